@@ -19,8 +19,8 @@ pub fn check() -> Check {
 
 fn plan(tier: Tier) -> Vec<Workload> {
     vec![
-        Workload::new("sessions", tier.pick(8_000, 250_000)),
-        Workload::new("sessions_ship", tier.pick(3_000, 60_000)).ship(),
+        Workload::new("sessions", tier.pick(40_000, 1_000_000)),
+        Workload::new("sessions_ship", tier.pick(15_000, 300_000)).ship(),
         Workload::new("chasers", chasers().len() as u64 * tier.pick(1, 4)),
         Workload::new("chasers_ship", chasers().len() as u64).ship(),
     ]
